@@ -1000,6 +1000,33 @@ func (e *Env) applyPure(pf *PureFunc, n *ast.CallExpr) (SVal, error) {
 		}
 		return SVal{App(rs, sym, ts...), pf.RType}, nil
 	}
+	if pf.Opaque {
+		rs := vc.tc.SortOf(pf.RType)
+		sym := "op_" + pf.Name
+		if !vc.tc.extra[sym] {
+			var ps []string
+			var bvs []Term
+			c := &Env{vc: vc, st: vc.entry, old: vc.entry, vars: map[string]SVal{}, ctx: pf.Ctx, depth: e.depth + 1, inQuant: true}
+			for i, p := range pf.Params {
+				srt := vc.tc.SortOf(pf.PTypes[i])
+				ps = append(ps, string(srt))
+				bv := vc.boundVar(p, srt)
+				bvs = append(bvs, bv)
+				c.vars[p] = SVal{bv, pf.PTypes[i]}
+			}
+			body, err := c.Eval(pf.Body)
+			if err != nil {
+				return SVal{}, fmt.Errorf("%v (in opaque func %s)", err, pf.Name)
+			}
+			app := App(rs, sym, bvs...)
+			vc.tc.Declare(sym, fmt.Sprintf("(declare-fun %s (%s) %s)\n(assert %s)", sym, strings.Join(ps, " "), rs, Forall(bvs, Eq(app, body.T), app).S))
+		}
+		var ts []Term
+		for i := range args {
+			ts = append(ts, args[i].T)
+		}
+		return SVal{App(rs, sym, ts...), pf.RType}, nil
+	}
 	if e.depth > 12 {
 		return SVal{}, fmt.Errorf("spec expr: pure function nesting too deep (recursion?) at %s", pf.Name)
 	}
